@@ -93,6 +93,14 @@ CLAIMS = {
         note="PARTIAL: the model covers only the m_stack_state handshake and is not tied step by step to the code; stack switching, the resume task's route through the arena, owner recall and arena "
              "lifetime are exercised by the oracle runs only.",
         ref="4/C20"),
+    "C19": dict(
+        technique="Coq: executable small-step model of the once-flag word protocol; exhaustive evaluation of all interleavings of small configurations inside Coq (finite theorems); real-thread oracle runs for call_once and thread-specific storage",
+        text="For 2 and 3 callers (with and without a throwing first attempt) every interleaving prefix, completed to quiescence, is shown inside Coq to give exactly one successful execution, every caller returning "
+             "(the throwing attempt's caller with the exception), final state done, and no helper touching a destroyed runner. Real threads: one success, no overlapping executions, return only after completion, "
+             "exceptions delivered to the right callers; enumerable_thread_specific/combinable: one element per thread, stable addresses, one initialiser call, iteration/combine exactly once (2-130 threads across table doublings).",
+        note="PARTIAL: the unbounded invariant (OInv) is stated but not proved; results are bounded (model checking inside Coq) + oracle runs. The model is not tied step by step to the code; "
+             "the thread-specific-storage table is not modelled.",
+        ref="4/C19"),
 }
 
 REASONS_TODO = "check not built yet in this round; the design (DESIGN.md section 4) applies and it is planned — listed here only because no check is registered"
